@@ -1,10 +1,14 @@
 import SMD.Model.Wire
-import SMD.Model.Compare
+import SMD.Model.Updater
 open SMD SMD.Wire
 namespace Driver
 
-/-- driver state: the schema the following typed operations refer to -/
+/-- driver state: the schema the following typed operations refer to, and the state of a history -/
 structure State where
   schema : Schema := ⟨[]⟩
+  rootType : TypeRef := TypeRef.zero
+  live : Value := .null
+  managers : Managed := []
+  updater : Updater := { converter := Converter.identity, ignore := fun _ => none }
 
 end Driver
